@@ -15,6 +15,8 @@ SCRATCH = os.path.join(BUILD_ROOT, "scratch-C20")
 WORKERS = 8
 SAN = "hard"
 TOOL_TIMEOUT = 30
+FILE_BACKED = {"empty", "newline", "no-final-newline", "nul-in-line", "crlf", "bad-utf8-word", "long-line", "page-exact", "page-exact-no-nl",
+               "two-pages-no-nl", "gz-valid", "gz-truncated-8", "bz2-corrupt-mid", "xz-valid", "b64-empty-doc", "warc-ok", "warc-trunc-body"}
 SAN_ENV = {"ASAN_OPTIONS": "detect_leaks=0:allocator_may_return_null=1:abort_on_error=0", "UBSAN_OPTIONS": "print_stacktrace=0"}
 CRASH_SIGNALS = {4: "SIGILL", 7: "SIGBUS", 8: "SIGFPE", 11: "SIGSEGV"}
 
@@ -104,7 +106,64 @@ def stream_cases(c, decomp):
             else:
                 ops.append(rng.choice(nums + dnums))
         lines.append("ST " + " ".join(ops))
-    return lines
+    # the same scenarios on ThreadedBufferedStream (no flush there)
+    ts = ["TS" + l[2:] for l in lines if " fl" not in l] + ["TS", "TS w:8192", "TS w:16384", "TS w:8192 p", "TS p"]
+    # util::StringStream: numbers after strings of every small length (std::string growth boundaries: 15/16, 30/31 ...)
+    ss = ["SS w:%d %s p" % (n, num) for num in nums + dnums for n in list(range(0, 34)) + [62, 63, 64, 127, 128]]
+    return lines + ts + ss
+
+
+def expected_stream_bytes(ops, dtext):
+    """the bytes a sequence of stream operations produces (independent of the model)"""
+    out = bytearray()
+    for o in ops:
+        if o.startswith("w:"):
+            out += b"x" * int(o[2:])
+        elif o == "p":
+            out += b"c"
+        elif o == "fl":
+            pass
+        elif o[:4] in ("u64:", "i64:", "u32:", "i32:"):
+            out += str(int(o[4:])).encode()
+        elif o[:2] in ("d:", "f:"):
+            t = dtext.get((o[0], o.split(":")[1]))
+            if t is None:
+                return None
+            out += t.encode("latin1")
+        else:
+            return None
+    return bytes(out)
+
+
+def stream_checksum(data):
+    a, b = 1, 0
+    for ch in data:
+        a = (a + ch) % 65521
+        b = (b + a) % 65521
+    return b * 65536 + a
+
+
+def expected_stream_length(ops, dtext):
+    """total number of bytes a sequence of stream operations produces (independent of the model:
+    integers by Python's str, doubles by the text the real ToString returned for the same bits)"""
+    n = 0
+    for o in ops:
+        if o.startswith("w:"):
+            n += int(o[2:])
+        elif o == "p":
+            n += 1
+        elif o == "fl":
+            pass
+        elif o[:4] in ("u64:", "i64:", "u32:", "i32:"):
+            n += len(str(int(o[4:])))
+        elif o[:2] in ("d:", "f:"):
+            t = dtext.get((o[0], o.split(":")[1]))
+            if t is None:
+                return None
+            n += len(t)
+        else:
+            return None
+    return n
 
 
 def run_until_death(exe, lines, env=None):
@@ -155,6 +214,11 @@ def part_formatters(c, drv, kconst):
     k = {a: int(b) for a, b in km}
     kconst.update(k)
     tymap = {"U16": "u16", "I16": "i16", "U32": "u32", "I32": "i32", "U64": "u64", "I64": "i64", "P": "ptr", "B": "bool"}
+    dtext = {}
+    for l, o in zip(lines[1:], out[1:]):
+        p = l.split()
+        if p[0] == "DL" and o.startswith("OK"):
+            dtext[("d" if p[1] == "D" else "f", p[-1])] = bytes.fromhex(o.split()[1]).decode("latin1")
     # direct oracle on the real code: text is the decimal numeral, footprint within the compiled reservation
     for l, o in zip(lines[1:], out[1:]):
         p = l.split()
@@ -190,8 +254,32 @@ def part_formatters(c, drv, kconst):
                 same = False
             if not same:
                 c.violation("formatter-wrong-text: ToString(%s bits %s) = %r does not denote the value" % (p[1], p[-1], text), {"harness": "hx_tostring", "case": l, "impl": o})
-        elif p[0] == "ST":
-            c.count(l, bucket="stream/" + ("edge" if len(p) == 4 else "random"))
+        elif p[0] == "SS":
+            c.count(l, bucket="string-stream")
+            wb = expected_stream_bytes(p[1:], dtext)
+            if wb is not None and len(wb) <= 70000 and op[-1] != "sum=%d" % stream_checksum(wb):
+                c.violation("string-stream-content: util::StringStream does not hold the bytes of the operations %s (checksum %s, expected sum=%d)" % (" ".join(p[1:])[:120], op[-1], stream_checksum(wb)),
+                            {"harness": "hx_tostring", "case": l[:600], "impl": o[:300], "expected_tail_hex": wb[-40:].hex()})
+            want = expected_stream_length(p[1:], dtext)
+            if want is not None and int(op[1]) != want:
+                c.violation("string-stream-content: util::StringStream holds %s bytes after %s, the operations produce %d" % (op[1], " ".join(p[1:])[:120], want),
+                            {"harness": "hx_tostring", "case": l[:600], "impl": o[:300], "expected_length": want})
+        elif p[0] in ("ST", "TS"):
+            c.count(l, bucket=("stream/" if p[0] == "ST" else "threaded-stream/") + ("edge" if len(p) == 4 else "random"))
+            sizes = [int(x) for x in op[1:-1]]
+            wb = expected_stream_bytes(p[1:], dtext)
+            if wb is not None and len(wb) <= 70000 and op[-1] != "sum=%d" % stream_checksum(wb):
+                c.violation("stream-content: %s did not write the bytes of the operations %s (checksum %s, expected sum=%d)" % (
+                    "util::FileStream" if p[0] == "ST" else "util::ThreadedBufferedStream", " ".join(p[1:])[:120], op[-1], stream_checksum(wb)),
+                    {"harness": "hx_tostring", "case": l[:600], "impl": o[:300], "expected_tail_hex": wb[-40:].hex()})
+            want = expected_stream_length(p[1:], dtext)
+            if want is not None and sum(sizes) != want:
+                c.violation("stream-content: %s wrote %d bytes in total after %s, the operations produce %d" % (
+                    "util::FileStream" if p[0] == "ST" else "util::ThreadedBufferedStream", sum(sizes), " ".join(p[1:])[:120], want),
+                    {"harness": "hx_tostring", "case": l[:600], "impl": o[:300], "expected_length": want})
+            if p[0] == "TS" and (0 in sizes or any(x > k["block"] for x in sizes)):
+                c.violation("threaded-stream-block: ThreadedBufferedStream handed blocks of sizes %s to its writer (0 = poison, max %d)" % (sizes[:8], k["block"]),
+                            {"harness": "hx_tostring", "case": l[:600], "impl": o[:300]})
     c.sample({"formatter_case": dl[5], "impl": out[1 + len(ints) + 5]})
     c.sample({"stream_case": st[3][:200], "impl": out[1 + len(ints) + len(dl) + 3]})
     # the same cases with exact-size heap destinations under ASan: any store beyond the reservation is reported
@@ -222,10 +310,39 @@ def generic_streams(rng, tier):
         ("gzip-magic-garbage", b"\x1f\x8b\x08\x00garbage-not-gzip\n"), ("bz-magic-garbage", b"BZh9garbage\n"), ("xz-magic-garbage", b"\xfd7zXZ\x00garbage\n"),
         ("gzip-truncated", bytes.fromhex("1f8b0800000000000003")),
     ]
+    s += [("gigaword-empty-line", b"<P>\n\n</P>\n"), ("gigaword-unclosed", b"<TEXT>\nunclosed text\nmore"), ("gigaword-angle", b"<P>\n<\n>\n<>\n< >\n</P>\n"),
+          ("gigaword-entities", b"<P>\n&amp; &lt;x&gt; &quot; &apos &amp\n(BEGIN BRACKET) x (END BRACKET) (unknown) (\n)\n</P>\n"),
+          ("gigaword-sections", b"<HEADLINE>\nabc-\ndef\n</HEADLINE>\n<DATELINE>\n</DATELINE>\n<TEXT>\n<P>\nx\n</TEXT>\n"),
+          ("page-exact", b"a" * 4095 + b"\n"), ("page-exact-no-nl", b"a" * 4096), ("two-pages-no-nl", b"ab\n" + b"c" * 8189),
+          ("giza-like", tr.GIZA * 2), ("tab-numbers", b"1\t2\t3\t4\t5\t6\n" * 5)]
+    s += compressed_streams()
     for i in range(3 if tier == "quick" else 30):
         s.append(("random-%d" % i, bytes(rng.randrange(256) for _ in range(rng.choice([1, 7, 100, 4096, 9000])))))
         s.append(("random-lines-%d" % i, b"\n".join(bytes(rng.choice(b"ab \t\xc3\xa9\xff\x00.,-") for _ in range(rng.randrange(0, 40))) for _ in range(rng.randrange(1, 30))) + b"\n"))
     return s
+
+
+def compressed_streams():
+    """inputs that take the ReadCompressed path of util::FilePiece: valid, concatenated, truncated and corrupt members"""
+    import bz2
+    import gzip
+    import lzma
+    text = b"hello world\nsecond line\n\xff\xfe bad\n"
+    gz, bz, xz = gzip.compress(text), bz2.compress(text), lzma.compress(text)
+    out = [("gz-valid", gz), ("bz2-valid", bz), ("xz-valid", xz), ("gz-concat", gz + gzip.compress(b"tail\n")), ("bz2-concat", bz + bz2.compress(b"tail\n")),
+           ("xz-concat", xz + lzma.compress(b"tail\n")), ("gz-then-plain", gz + b"plain text\n"), ("gz-then-bz2", gz + bz),
+           ("gz-long-line", gzip.compress(b"a" * (1 << 20) + b"\n")), ("gz-empty-member", gzip.compress(b"")), ("bz2-empty-member", bz2.compress(b"")),
+           ("xz-empty-member", lzma.compress(b""))]
+    for name, blob in (("gz", gz), ("bz2", bz), ("xz", xz)):
+        for cut in (3, 8, len(blob) // 2, len(blob) - 1):
+            out.append(("%s-truncated-%d" % (name, cut), blob[:cut]))
+        bad = bytearray(blob)
+        bad[len(bad) // 2] ^= 0x55
+        out.append(("%s-corrupt-mid" % name, bytes(bad)))
+        bad = bytearray(blob)
+        bad[-3] ^= 0xff
+        out.append(("%s-corrupt-trailer" % name, bytes(bad)))
+    return out
 
 
 def base64_streams(rng, tier):
@@ -345,6 +462,10 @@ def stream_matrix(c):
                 streams = [s for s in streams if s[0] not in heavy]
         for name, data in streams:
             jobs.append((tr.Tool(base.name, base.args, data, base.files, base.outputs, base.kind, base.label), name))
+        # the same bytes as a regular file on stdin: util::FilePiece then maps the file instead of reading it
+        for name, data in streams:
+            if name in FILE_BACKED:
+                jobs.append((tr.Tool(base.name, base.args, data, base.files, base.outputs, base.kind, base.label), name + "@file"))
     for t in option_cases():
         jobs.append((t, "options"))
     return jobs
@@ -377,7 +498,14 @@ def part_tools(c, bindir_san, hx):
         t, sname = j
         with tr.Scratch(SCRATCH, t) as w:
             env = dict(os.environ, **SAN_ENV)
-            rc, out, err = tr.run(t.argv(bindir_san, w, hx), t.stdin, timeout=TOOL_TIMEOUT, env=env, cwd=w)
+            if sname.endswith("@file"):
+                p = os.path.join(w, "stdin.bin")
+                with open(p, "wb") as f:
+                    f.write(t.stdin)
+                with open(p, "rb") as f:
+                    rc, out, err = tr.run(t.argv(bindir_san, w, hx), timeout=TOOL_TIMEOUT, env=env, cwd=w, stdin_file=f)
+            else:
+                rc, out, err = tr.run(t.argv(bindir_san, w, hx), t.stdin, timeout=TOOL_TIMEOUT, env=env, cwd=w)
             return j, rc, err
 
     with ThreadPoolExecutor(WORKERS) as ex:
@@ -396,6 +524,46 @@ def part_tools(c, bindir_san, hx):
     c.sample({"tool_run": results[0][0][0].label, "stream": results[0][0][1], "status": results[0][1]})
 
 
+VALGRIND_QUICK = {"empty", "bad-utf8-word", "nul-in-line", "no-final-newline", "gz-valid", "bz2-valid", "xz-valid", "gz-truncated-8", "b64-empty-doc", "b64-foreign",
+                  "warc-ok", "warc-trunc-body", "gigaword-entities", "astral", "few-fields"}
+
+
+def part_valgrind(c, bindir_rel, hx):
+    """uninitialised-value use is invisible to ASan: memcheck on the uninstrumented build (small inputs only)"""
+    if not shutil.which("valgrind"):
+        c.assumptions.append("valgrind not installed: no uninitialised-value detection in this run")
+        return
+    jobs = []
+    for t in tr.catalogue():
+        jobs.append((t, "catalogue"))
+    for t, sname in stream_matrix(c):
+        if len(t.stdin) > 20000 or sname.endswith("@file"):
+            continue
+        if sname == "options" or c.tier == "thorough" or sname in VALGRIND_QUICK:
+            jobs.append((t, sname))
+
+    def work(j):
+        t, sname = j
+        with tr.Scratch(SCRATCH, t) as w:
+            argv = ["valgrind", "-q", "--error-exitcode=99", "--trace-children=no", "--child-silent-after-fork=yes"] + t.argv(bindir_rel, w, hx)
+            rc, out, err = tr.run(argv, t.stdin, timeout=120, cwd=w)
+            return j, rc, err
+
+    with ThreadPoolExecutor(WORKERS) as ex:
+        results = list(ex.map(work, jobs))
+    for (t, sname), rc, err in results:
+        lines = [l[:300] for l in err[:30000].decode("utf-8", "replace").split("\n")]
+        hits = [l for l in lines if l.startswith("==") and ("uninitialised" in l or "Invalid read" in l or "Invalid write" in l or "Invalid free" in l
+                                                            or "Mismatched free" in l or "overlap" in l)]
+        c.count(("valgrind", t.label, sname), bucket="valgrind/%s" % ("report" if (hits or rc == 99) else ("timeout" if rc == "timeout" else "clean")))
+        if hits or rc == 99:
+            small = len(t.stdin) <= 4096
+            c.violation("memcheck: %s %s on input '%s': %s" % (t.name, " ".join(t.args[:4]), sname, (hits or ["valgrind error exit"])[0]),
+                        {"tool": t.label, "executable": t.name, "argv": ["valgrind", "-q"] + t.argv("$BIN", "$W", "$HX"), "stream": sname,
+                         "stdin_hex": hexs(t.stdin) if small else None, "files_hex": {k_: hexs(v) for k_, v in t.files.items()}, "status": rc,
+                         "report": (hits or [""])[0], "stderr_tail": "\n".join(lines[:25])})
+
+
 def main(argv):
     c = Check("C20", argv)
     ok, blog = build_repo(["all"])
@@ -412,6 +580,9 @@ def main(argv):
     kconst = {}
     part_formatters(c, drv, kconst)
     part_tools(c, os.path.dirname(repo_bin("x", SAN)), os.path.dirname(hx_bin("x")))
+    part_valgrind(c, os.path.dirname(repo_bin("x")), os.path.dirname(hx_bin("x")))
+    if c.tier == "thorough":
+        coqchk(c)
     shutil.rmtree(SCRATCH, ignore_errors=True)
     if os.environ.get("VERIF_DEBUG"):
         for what, obj, found in c.violations:
@@ -425,7 +596,7 @@ def main(argv):
         assumptions=["x86-64 build (SSE2 branch of integer_to_string.cc, 8-byte pointers)",
                      "DoubleToAscii delivers 1..17 (float: 1..9) decimal digits and a decimal point position in [-323, 309] (float: [-44, 39]); checked on every sampled value",
                      "sanitizer runs are sampling: out-of-bounds accesses, use-after-free or uninitialised reads in code paths not exercised by the generated inputs, and anything inside libstdc++/ICU/zlib/bzip2/liblzma, are outside the proof",
-                     "uninitialised-value reads are only seen when they crash or trip ASan (no MemorySanitizer / valgrind run in the quick tier)"])
+                     "uninitialised-value use is looked for with valgrind memcheck on the uninstrumented build, small inputs only (quick: every executable on its catalogue input + 15 stream classes + all option cases; thorough: every small stream)"])
 
 
 if __name__ == "__main__":
